@@ -1,12 +1,996 @@
-//! C17: not yet implemented
+//! C17: untrusted user and launcher files never crash the caller.
+//!
+//! Cases are `<entry> <hex bytes>` (inputs are arbitrary byte strings, so the seed files are
+//! built here and every case carries the raw bytes), `pl_write <kind> <abstract list>`, and
+//! (see `c17_io.rs`) `apply …`, `execlookup …`, `bootdata …` for the path-taking entry points.
+//! `run` wraps every call in `guarded` + `alloc::measured` and prints one canonical outcome
+//! line: `none` | `some:<digest>` | `ok:<digest>…` | `err` | `panic:<file>:<line>`, with
+//! ` overalloc:<n>` appended when the allocation budget `64·|input| + 2^24` was exceeded.
+//! The digest is FNV-1a-64 over a canonical byte string that the Lean driver builds from the
+//! fault model's value in the same way (`Base/StrF.lean` `dNat`/`dBytes`/`dLossy`).
 #![allow(unused)]
 use crate::util::*;
 use std::io::Write;
 
-pub fn generate(thorough: bool, seed: u64, out: &mut dyn Write) {}
-
-pub fn run(case: &str, input: &str) -> String {
-    "unimplemented".to_string()
+// ------------------------------------------------------------------------------------------
+// canonical digests
+// ------------------------------------------------------------------------------------------
+pub struct D(pub Vec<u8>);
+impl D {
+    pub fn new() -> Self {
+        D(Vec::new())
+    }
+    pub fn nat(&mut self, n: u128) {
+        self.0.extend_from_slice(n.to_string().as_bytes());
+        self.0.push(0xFF);
+    }
+    pub fn int(&mut self, n: i128) {
+        self.0.extend_from_slice(n.to_string().as_bytes());
+        self.0.push(0xFF);
+    }
+    pub fn bytes(&mut self, b: &[u8]) {
+        self.0.extend_from_slice(b.len().to_string().as_bytes());
+        self.0.push(b':');
+        self.0.extend_from_slice(b);
+        self.0.push(0xFF);
+    }
+    /// a string that went through a lossy decoder
+    pub fn lossy(&mut self, s: &str) {
+        if s.contains('\u{FFFD}') {
+            self.0.extend_from_slice(&[0xFE, 0xFF]);
+        } else {
+            self.bytes(s.as_bytes());
+        }
+    }
+    pub fn hex(&self) -> String {
+        format!("{:016x}", fnv1a(&self.0))
+    }
 }
 
-pub fn dump(out: &mut dyn Write) {}
+pub fn fnv1a(b: &[u8]) -> u64 {
+    let mut h: u64 = 0xcbf29ce484222325;
+    for x in b {
+        h = (h ^ *x as u64).wrapping_mul(0x100000001b3);
+    }
+    h
+}
+
+fn some(d: D) -> String {
+    format!("some:{}", d.hex())
+}
+
+// ------------------------------------------------------------------------------------------
+// run: in-memory entry points
+// ------------------------------------------------------------------------------------------
+fn run_cfg(b: &[u8]) -> String {
+    match physis::cfg::ConfigFile::from_existing(b) {
+        None => "none".into(),
+        Some(c) => {
+            let mut d = D::new();
+            d.nat(c.categories.len() as u128);
+            let mut seen = std::collections::HashSet::new();
+            for name in &c.categories {
+                d.bytes(name.as_bytes());
+                if !seen.insert(name.clone()) {
+                    continue;
+                }
+                match c.settings.get(name) {
+                    None => d.nat(0),
+                    Some(m) => {
+                        d.nat(m.keys.len() as u128 + 1);
+                        for (k, v) in &m.keys {
+                            d.bytes(k.as_bytes());
+                            d.bytes(v.as_bytes());
+                        }
+                    }
+                }
+            }
+            some(d)
+        }
+    }
+}
+
+fn run_exl(b: &[u8]) -> String {
+    match physis::exl::EXL::from_existing(b) {
+        None => "none".into(),
+        Some(e) => {
+            let mut d = D::new();
+            d.int(e.version as i128);
+            d.nat(e.entries.len() as u128);
+            for (n, v) in &e.entries {
+                d.bytes(n.as_bytes());
+                d.int(*v as i128);
+            }
+            some(d)
+        }
+    }
+}
+
+fn run_fiin(b: &[u8]) -> String {
+    match physis::fiin::FileInfo::from_existing(b) {
+        None => "none".into(),
+        Some(f) => {
+            let mut d = D::new();
+            d.nat(f.entries.len() as u128);
+            for e in &f.entries {
+                d.int(e.file_size as i128);
+                d.lossy(&e.file_name);
+                d.bytes(&e.sha1);
+            }
+            some(d)
+        }
+    }
+}
+
+fn run_chardat(b: &[u8]) -> String {
+    match physis::chardat::CharacterData::from_existing(b) {
+        None => "none".into(),
+        Some(c) => {
+            let mut d = D::new();
+            d.nat(c.version as u128);
+            let z = &c.customize;
+            let f: [u8; 27] = [
+                z.race.clone() as u8,
+                z.gender.clone() as u8,
+                z.age,
+                z.height,
+                z.tribe.clone() as u8,
+                z.face,
+                z.hair,
+                z.enable_highlights as u8,
+                z.skin_tone,
+                z.right_eye_color,
+                z.hair_tone,
+                z.highlights,
+                z.facial_features,
+                z.facial_feature_color,
+                z.eyebrows,
+                z.left_eye_color,
+                z.eyes,
+                z.nose,
+                z.jaw,
+                z.mouth,
+                z.lips_tone_fur_pattern,
+                z.race_feature_size,
+                z.race_feature_type,
+                z.bust,
+                z.face_paint,
+                z.face_paint_color,
+                z.voice,
+            ];
+            for x in f {
+                d.nat(x as u128);
+            }
+            d.nat(c.timestamp as u128);
+            d.lossy(&c.comment);
+            some(d)
+        }
+    }
+}
+
+fn run_gearsets(b: &[u8]) -> String {
+    match physis::gearsets::GearSets::from_existing(b) {
+        None => "none".into(),
+        Some(g) => {
+            let mut d = D::new();
+            d.nat(g.current_gearset as u128);
+            d.nat(g.gearsets.len() as u128);
+            for s in &g.gearsets {
+                match s {
+                    None => d.0.extend_from_slice(&[0x4E, 0xFF]),
+                    Some(s) => {
+                        d.nat(s.index as u128);
+                        d.lossy(&s.name);
+                        let mut slots: Vec<(usize, u32, u32)> = s
+                            .slots
+                            .iter()
+                            .map(|(k, v)| (k.clone() as usize, v.id, v.glamour_id.unwrap_or(0)))
+                            .collect();
+                        slots.sort();
+                        d.nat(slots.len() as u128);
+                        for (i, id, gl) in slots {
+                            d.nat(i as u128);
+                            d.nat(id as u128);
+                            d.nat(gl as u128);
+                        }
+                        d.nat(s.facewear.unwrap_or(0) as u128);
+                    }
+                }
+            }
+            some(d)
+        }
+    }
+}
+
+fn run_log(b: &[u8]) -> String {
+    match physis::log::ChatLog::from_existing(b) {
+        None => "none".into(),
+        Some(l) => {
+            let mut d = D::new();
+            d.nat(l.entries.len() as u128);
+            for e in l.entries {
+                d.nat(e.filter as u32 as u128);
+                d.nat(e.channel as u32 as u128);
+                d.lossy(&e.message);
+            }
+            some(d)
+        }
+    }
+}
+
+fn digest_patches(ps: &[physis::patchlist::PatchEntry]) -> D {
+    let mut d = D::new();
+    d.nat(ps.len() as u128);
+    for p in ps {
+        d.bytes(p.url.as_bytes());
+        d.bytes(p.version.as_bytes());
+        d.int(p.hash_block_size as i128);
+        d.int(p.length as i128);
+        d.int(p.size_on_disk as i128);
+        d.nat(p.hashes.len() as u128);
+        for h in &p.hashes {
+            d.bytes(h.as_bytes());
+        }
+    }
+    d
+}
+
+fn kind(game: bool) -> physis::patchlist::PatchListType {
+    if game { physis::patchlist::PatchListType::Game } else { physis::patchlist::PatchListType::Boot }
+}
+
+fn run_pl(game: bool, b: &[u8]) -> String {
+    let Ok(s) = std::str::from_utf8(b) else { return "not-utf8".into() };
+    let l = physis::patchlist::PatchList::from_string(kind(game), s);
+    let d1 = digest_patches(&l.patches);
+    let out = l.to_string(kind(game));
+    let mut d2 = D::new();
+    d2.bytes(out.as_bytes());
+    format!("ok:{}:{}", d1.hex(), d2.hex())
+}
+
+/// `pl_write <boot|game> <len,size,hbs,nhashes;…>`: url "u<i>", version "v<i>", hashes "h0",…
+fn parse_pl_write(f: &[&str]) -> Option<(bool, Vec<(i64, i64, i64, usize)>)> {
+    if f.len() != 3 {
+        return None;
+    }
+    let game = match f[1] {
+        "boot" => false,
+        "game" => true,
+        _ => return None,
+    };
+    let mut v = vec![];
+    if f[2] != "-" {
+        for e in f[2].split(';') {
+            let p: Vec<&str> = e.split(',').collect();
+            if p.len() != 4 {
+                return None;
+            }
+            v.push((p[0].parse().ok()?, p[1].parse().ok()?, p[2].parse().ok()?, p[3].parse().ok()?));
+        }
+    }
+    Some((game, v))
+}
+
+fn run_pl_write(game: bool, es: &[(i64, i64, i64, usize)]) -> String {
+    let patches = es
+        .iter()
+        .enumerate()
+        .map(|(i, (len, size, hbs, nh))| physis::patchlist::PatchEntry {
+            url: format!("u{}", i),
+            version: format!("v{}", i),
+            hash_block_size: *hbs,
+            length: *len,
+            size_on_disk: *size,
+            hashes: (0..*nh).map(|j| format!("h{}", j)).collect(),
+            unknown_a: 0,
+            unknown_b: 0,
+        })
+        .collect();
+    let l = physis::patchlist::PatchList {
+        id: "ID".into(),
+        patch_length: 0,
+        content_location: "loc".into(),
+        requested_version: "".into(),
+        patches,
+    };
+    let out = l.to_string(kind(game));
+    let mut d = D::new();
+    d.bytes(out.as_bytes());
+    format!("ok:{}", d.hex())
+}
+
+pub fn run(case: &str, input: &str) -> String {
+    let f: Vec<&str> = input.split(' ').collect();
+    if f.is_empty() {
+        return "bad-case".into();
+    }
+    match f[0] {
+        "cfg" | "exl" | "fiin" | "chardat" | "gearsets" | "log" | "pl_boot" | "pl_game" => {
+            if f.len() != 2 {
+                return "bad-case".into();
+            }
+            let Some(b) = unhex(f[1]) else { return "bad-case".into() };
+            let op = f[0].to_string();
+            let n = b.len();
+            crate::alloc::measured(n, move || {
+                guarded(move || match op.as_str() {
+                    "cfg" => run_cfg(&b),
+                    "exl" => run_exl(&b),
+                    "fiin" => run_fiin(&b),
+                    "chardat" => run_chardat(&b),
+                    "gearsets" => run_gearsets(&b),
+                    "log" => run_log(&b),
+                    "pl_boot" => run_pl(false, &b),
+                    _ => run_pl(true, &b),
+                })
+            })
+        }
+        "pl_write" => {
+            let Some((game, es)) = parse_pl_write(&f) else { return "bad-case".into() };
+            crate::alloc::measured(input.len(), move || guarded(move || run_pl_write(game, &es)))
+        }
+        "apply" | "execlookup" | "bootdata" => crate::c17_io::run(&f),
+        _ => "bad-case".into(),
+    }
+}
+
+// ------------------------------------------------------------------------------------------
+// seeds
+// ------------------------------------------------------------------------------------------
+/// (offset, width, big_endian) of every header / record field of a seed
+pub type Fields = Vec<(usize, usize, bool)>;
+
+pub fn seed_cfg() -> Vec<u8> {
+    b"\r\n<Version>\r\nGuidVersion\t1\r\nConfigVersion\t7\r\n\r\n<Display Settings>\r\nMainAdapter\tNVIDIA \xc3\xa9\r\nFPS\t2\r\n<Empty>\r\n<Version>\r\nLang\t\r\n\0".to_vec()
+}
+
+pub fn seed_exl() -> Vec<u8> {
+    b"EXLT,2\nAchievement,209\nAction,4\n#comment,5\ncontent/Foo,-1\nBar,+7\nBaz,2147483647".to_vec()
+}
+
+pub fn seed_fiin(n: usize) -> (Vec<u8>, Fields) {
+    let mut v = b"FileInfo".to_vec();
+    v.extend_from_slice(&[0; 16]);
+    v.extend_from_slice(&1024i32.to_le_bytes());
+    v.extend_from_slice(&((n * 96) as i32).to_le_bytes());
+    v.extend_from_slice(&[0; 992]);
+    let mut fields: Fields = vec![(0, 4, false), (4, 4, false), (24, 4, false), (28, 4, false)];
+    for i in 0..n {
+        let o = v.len();
+        fields.push((o, 4, false));
+        fields.push((o + 8, 1, false));
+        fields.push((o + 72, 1, false));
+        v.extend_from_slice(&((1000 + i) as i32).to_le_bytes());
+        v.extend_from_slice(&[0; 4]);
+        let mut name = format!("file{}.ex\u{e9}", i).into_bytes();
+        name.resize(64, 0);
+        v.extend_from_slice(&name);
+        v.extend((0..24).map(|j| if j < 20 { (i * 7 + j) as u8 } else { 0 }));
+    }
+    (v, fields)
+}
+
+pub fn seed_chardat() -> (Vec<u8>, Fields) {
+    let mut v = 0x2013FF14u32.to_le_bytes().to_vec();
+    v.extend_from_slice(&4u32.to_le_bytes()); // version
+    v.extend_from_slice(&0x1234u32.to_le_bytes()); // checksum
+    v.extend_from_slice(&[0; 4]);
+    v.extend_from_slice(&[
+        4, 1, 1, 50, 8, 2, 5, 1, 160, 91, 111, 12, 0, 6, 2, 91, 1, 2, 1, 3, 1, 50, 1, 25, 0, 2, 112,
+    ]);
+    v.push(0);
+    v.extend_from_slice(&1_700_000_000u32.to_le_bytes());
+    let mut c = "Custom Comment Text \u{2605}!".as_bytes().to_vec();
+    c.resize(164, 0);
+    v.extend_from_slice(&c);
+    let mut fields: Fields = vec![(0, 4, false), (4, 4, false), (8, 4, false), (12, 4, false), (44, 4, false)];
+    for i in 16..44 {
+        fields.push((i, 1, false));
+    }
+    (v, fields)
+}
+
+const GEARSET_KEY: u8 = 0x73;
+
+/// a gear-set file with sets at the given indices; returns plain payload offsets as fields
+pub fn seed_gearsets(sets: &[usize]) -> (Vec<u8>, Fields) {
+    let mut p = vec![0u8, 3, 0, 0];
+    let mut fields: Fields = vec![(0, 4, false), (4, 4, false), (8, 4, false), (12, 4, false), (16, 1, false), (17, 1, false), (18, 1, false), (19, 2, false)];
+    for i in 0..100 {
+        let o = 17 + p.len();
+        let mut g = vec![i as u8];
+        let mut name = if sets.contains(&i) { format!("Set {} \u{266b}", i).into_bytes() } else { vec![] };
+        name.resize(47, 0);
+        g.extend_from_slice(&name);
+        g.extend_from_slice(&0x0102030405060708u64.to_le_bytes());
+        for s in 0..14 {
+            let id: u32 = if sets.contains(&i) && s % 3 != 2 { (1_000_000u32 | (30000 + (i * 14 + s) as u32)) } else { 0 };
+            let gl: u32 = if s % 2 == 0 { 0 } else { 777 + s as u32 };
+            g.extend_from_slice(&id.to_le_bytes());
+            g.extend_from_slice(&gl.to_le_bytes());
+            g.extend_from_slice(&[s as u8; 20]);
+        }
+        g.extend_from_slice(&(if i % 2 == 0 { 0u32 } else { 9000 + i as u32 }).to_le_bytes());
+        if sets.contains(&i) || i < 2 {
+            fields.push((o, 1, false));
+            fields.push((o + 1, 1, false));
+            fields.push((o + 47, 1, false));
+            fields.push((o + 48, 8, false));
+            fields.push((o + 56, 4, false));
+            fields.push((o + 60, 4, false));
+            fields.push((o + 448, 4, false));
+        }
+        p.extend_from_slice(&g);
+    }
+    let mut v = 0x006d0005u32.to_le_bytes().to_vec();
+    v.extend_from_slice(&45205u32.to_le_bytes());
+    v.extend_from_slice(&((p.len() + 1) as u32).to_le_bytes());
+    v.extend_from_slice(&[0; 4]);
+    v.push(0xFF);
+    v.extend(p.iter().map(|x| x ^ GEARSET_KEY));
+    (v, fields)
+}
+
+/// chat log with the given messages; (filter, channel, message)
+pub fn seed_log(msgs: &[(u8, u8, &[u8])]) -> (Vec<u8>, Fields) {
+    // content_size = 0-ish so that `file_size - content_size` is the entry count
+    let n = msgs.len() as u32;
+    let content_size = 3u32;
+    let file_size = content_size + n;
+    let mut v = content_size.to_le_bytes().to_vec();
+    v.extend_from_slice(&file_size.to_le_bytes());
+    let mut fields: Fields = vec![(0, 4, false), (4, 4, false)];
+    // offsets are relative to 8 + file_size * 4; the table itself is n words, so the first
+    // entry starts at 8 + 4n, i.e. at relative offset 4n - 4·file_size (wraps) — keep it simple:
+    // pad the table area up to 8 + 4·file_size
+    let table_end = 8 + 4 * file_size as usize;
+    let mut rel = 0u32;
+    let mut body = vec![];
+    for (i, (f, c, m)) in msgs.iter().enumerate() {
+        fields.push((8 + 4 * i, 4, false));
+        v.extend_from_slice(&rel.to_le_bytes());
+        let o = table_end + body.len();
+        fields.push((o, 4, false));
+        fields.push((o + 4, 1, false));
+        fields.push((o + 5, 1, false));
+        fields.push((o + 6, 4, false));
+        body.extend_from_slice(&(1_600_000_000u32 + i as u32).to_le_bytes());
+        body.push(*f);
+        body.push(*c);
+        body.extend_from_slice(&1u32.to_le_bytes());
+        body.extend_from_slice(m);
+        rel = body.len() as u32;
+    }
+    v.resize(table_end, 0);
+    v.extend_from_slice(&body);
+    (v, fields)
+}
+
+pub fn seed_patchlist(game: bool, rows: usize) -> Vec<u8> {
+    let mut s = String::from("--477D80B1_38BC_41d4_8B48_5273ADB89CAC\r\nContent-Type: application/octet-stream\r\nContent-Location: ffxivpatch/x/metainfo/D2023.04.28.0000.0001.http\r\nX-Patch-Length: 22221335\r\n\r\n");
+    for i in 0..rows {
+        if game {
+            s.push_str(&format!("{}\t{}\t71\t11\t2023.09.15.0000.000{}\tsha1\t50000000\t{}\thttp://patch-dl.ffxiv.com/game/4e9a232b/D2023.09.15.0000.000{}.patch\r\n",
+                1479062470 + i, 44145529682u64 + i as u64, i, ["1c66becde2a8cf26a99d0fc7c06f15f8bab2d87c,950725418366c965d824228bf20f0496f81e0b9a", "aa", ""][i % 3], i));
+        } else {
+            s.push_str(&format!("{}\t69674819\t19\t18\t2023.09.14.0000.000{}\thttp://patch-dl.ffxiv.com/boot/2b5cbc63/D2023.09.14.0000.000{}.patch\r\n", 22221335 + i, i, i));
+        }
+    }
+    s.push_str("--477D80B1_38BC_41d4_8B48_5273ADB89CAC--\r\n");
+    s.into_bytes()
+}
+
+// ------------------------------------------------------------------------------------------
+// mutation engine
+// ------------------------------------------------------------------------------------------
+fn put(v: &mut [u8], off: usize, w: usize, be: bool, val: u64) {
+    for k in 0..w {
+        let byte = (val >> (8 * k)) as u8;
+        let idx = if be { off + w - 1 - k } else { off + k };
+        if idx < v.len() {
+            v[idx] = byte;
+        }
+    }
+}
+
+fn get(v: &[u8], off: usize, w: usize, be: bool) -> u64 {
+    let mut x = 0u64;
+    for k in 0..w {
+        let idx = if be { off + w - 1 - k } else { off + k };
+        if idx < v.len() {
+            x |= (v[idx] as u64) << (8 * k);
+        }
+    }
+    x
+}
+
+/// every single-field corruption {0, 1, 0x7F.., 0x80.., 0xFF.., ±1} of every field
+pub fn field_corruptions(seed: &[u8], fields: &Fields, emit: &mut dyn FnMut(Vec<u8>)) {
+    for &(off, w, be) in fields {
+        let bits = 8 * w as u32;
+        let mask = if bits == 64 { u64::MAX } else { (1u64 << bits) - 1 };
+        let orig = get(seed, off, w, be);
+        let vals = [
+            0,
+            1,
+            mask >> 1,
+            (mask >> 1) + 1,
+            mask,
+            orig.wrapping_add(1) & mask,
+            orig.wrapping_sub(1) & mask,
+            2,
+            mask - 1,
+        ];
+        for val in vals {
+            if val == orig {
+                continue;
+            }
+            let mut v = seed.to_vec();
+            put(&mut v, off, w, be, val);
+            emit(v);
+        }
+    }
+}
+
+/// truncation points: all of them for seeds ≤ `all_below`, otherwise the first 64, every field
+/// boundary (±1) and `extra` pseudo-random points
+pub fn truncations(seed: &[u8], fields: &Fields, all_below: usize, extra: usize, rng: &mut Rng, emit: &mut dyn FnMut(Vec<u8>)) {
+    let mut pts: Vec<usize> = vec![];
+    if seed.len() <= all_below {
+        pts.extend(0..seed.len());
+    } else {
+        pts.extend(0..64.min(seed.len()));
+        for &(off, w, _) in fields {
+            for p in [off.wrapping_sub(1), off, off + 1, off + w - 1, off + w] {
+                if p < seed.len() {
+                    pts.push(p);
+                }
+            }
+        }
+        for _ in 0..extra {
+            pts.push(rng.below(seed.len() as u64) as usize);
+        }
+        pts.push(seed.len() - 1);
+    }
+    pts.sort();
+    pts.dedup();
+    for p in pts {
+        emit(seed[..p].to_vec());
+    }
+}
+
+/// invalid UTF-8 / missing NULs in a fixed-size string field
+pub fn string_corruptions(seed: &[u8], off: usize, len: usize, emit: &mut dyn FnMut(Vec<u8>)) {
+    let pats: [&[u8]; 8] = [&[0xFF], &[0xC3, 0x28], &[0xE2, 0x82], &[0xED, 0xA0, 0x80], &[0xF4, 0x90, 0x80, 0x80], &[0xC0, 0x80], &[0xEF, 0xBF, 0xBD], &[0x80]];
+    for pat in pats {
+        for pos in [0usize, 1, len / 2, len.saturating_sub(pat.len()), len.saturating_sub(1)] {
+            let mut v = seed.to_vec();
+            for (k, b) in pat.iter().enumerate() {
+                if pos + k < len && off + pos + k < v.len() {
+                    v[off + pos + k] = *b;
+                }
+            }
+            emit(v);
+        }
+    }
+    // no NUL at all, all NUL, NUL first
+    for fill in [b'A', 0u8, 0xE9] {
+        let mut v = seed.to_vec();
+        for k in 0..len {
+            if off + k < v.len() {
+                v[off + k] = fill;
+            }
+        }
+        emit(v);
+    }
+    let mut v = seed.to_vec();
+    if off < v.len() {
+        v[off] = 0;
+    }
+    emit(v);
+}
+
+/// text mutations: at every position insert / replace / delete with structure characters
+pub fn text_mutations(seed: &[u8], specials: &[&[u8]], stride: usize, emit: &mut dyn FnMut(Vec<u8>)) {
+    let mut i = 0;
+    while i <= seed.len() {
+        for sp in specials {
+            let mut v = seed[..i].to_vec();
+            v.extend_from_slice(sp);
+            v.extend_from_slice(&seed[i..]);
+            emit(v);
+            if i < seed.len() {
+                let mut v = seed[..i].to_vec();
+                v.extend_from_slice(sp);
+                v.extend_from_slice(&seed[i + 1..]);
+                emit(v);
+            }
+        }
+        if i < seed.len() {
+            let mut v = seed[..i].to_vec();
+            v.extend_from_slice(&seed[i + 1..]);
+            emit(v);
+        }
+        i += stride;
+    }
+}
+
+/// all strings of length ≤ n over an alphabet
+pub fn small_strings(alpha: &[u8], n: usize, emit: &mut dyn FnMut(Vec<u8>)) {
+    let mut cur: Vec<Vec<u8>> = vec![vec![]];
+    emit(vec![]);
+    for _ in 0..n {
+        let mut next = vec![];
+        for c in &cur {
+            for a in alpha {
+                let mut v = c.clone();
+                v.push(*a);
+                emit(v.clone());
+                next.push(v);
+            }
+        }
+        cur = next;
+    }
+}
+
+pub fn generate(thorough: bool, seed: u64, out: &mut dyn Write) {
+    let mut rng = Rng::new(seed, "C17");
+    let mut count = 0usize;
+    macro_rules! emit_for {
+        ($op:expr) => {
+            &mut |v: Vec<u8>| {
+                writeln!(out, "{} {}", $op, hex(&v)).unwrap();
+            }
+        };
+    }
+
+    // ---------------- cfg ----------------
+    {
+        let s = seed_cfg();
+        writeln!(out, "cfg {}", hex(&s)).unwrap();
+        truncations(&s, &vec![], 4096, 0, &mut rng, emit_for!("cfg"));
+        let sp: [&[u8]; 10] = [b"<", b">", b"\t", b"\n", b"\r", b"\0", &[0xC3], &[0xC3, 0xA9], &[0xFF], b"<>"];
+        text_mutations(&s, &sp, if thorough { 1 } else { 3 }, emit_for!("cfg"));
+        small_strings(&[b'<', b'>', b'\t', b'\n', b'\r', 0, b'a', 0xC3, 0xA9, 0xE2, 0x98, 0x85], if thorough { 4 } else { 3 }, emit_for!("cfg"));
+    }
+    // ---------------- exl ----------------
+    {
+        let s = seed_exl();
+        writeln!(out, "exl {}", hex(&s)).unwrap();
+        truncations(&s, &vec![], 4096, 0, &mut rng, emit_for!("exl"));
+        let sp: [&[u8]; 12] = [b",", b"#", b"\n", b"\r", b"-", b"+", b"9", b"99999999999", b"\0", &[0xC3], &[0xFF], b"EXLT,"];
+        text_mutations(&s, &sp, if thorough { 1 } else { 2 }, emit_for!("exl"));
+        small_strings(&[b',', b'#', b'\n', b'\r', b'-', b'+', b'0', b'9', b'a', 0xC3, 0xA9], if thorough { 4 } else { 3 }, emit_for!("exl"));
+        for v in ["2147483647", "2147483648", "-2147483648", "-2147483649", "+0", "-0", "+-1", "", " 1", "1 ", "0x10", "00000000000000000000001"] {
+            writeln!(out, "exl {}", hex(format!("EXLT,{}\nFoo,{}", v, v).as_bytes())).unwrap();
+        }
+    }
+    // ---------------- fiin ----------------
+    for n in [0usize, 1, 3] {
+        let (s, fields) = seed_fiin(n);
+        writeln!(out, "fiin {}", hex(&s)).unwrap();
+        field_corruptions(&s, &fields, emit_for!("fiin"));
+        truncations(&s, &fields, 0, if thorough { 400 } else { 40 }, &mut rng, emit_for!("fiin"));
+        for i in 0..n {
+            string_corruptions(&s, 1024 + 96 * i + 8, 64, emit_for!("fiin"));
+        }
+        // entries_size values around multiples of 96 and negative
+        for es in [95i32, 96, 97, 191, 192, 96 * (n as i32 + 1), -1, -96, -97, i32::MIN, i32::MAX, 96 * 1000, 96 * 100000] {
+            let mut v = s.clone();
+            v[28..32].copy_from_slice(&es.to_le_bytes());
+            writeln!(out, "fiin {}", hex(&v)).unwrap();
+        }
+    }
+    // ---------------- chardat ----------------
+    {
+        let (s, fields) = seed_chardat();
+        writeln!(out, "chardat {}", hex(&s)).unwrap();
+        field_corruptions(&s, &fields, emit_for!("chardat"));
+        truncations(&s, &fields, 4096, 0, &mut rng, emit_for!("chardat"));
+        string_corruptions(&s, 48, 164, emit_for!("chardat"));
+        // every value of the three enum bytes
+        for off in [16usize, 17, 20] {
+            for b in 0..=255u8 {
+                let mut v = s.clone();
+                v[off] = b;
+                writeln!(out, "chardat {}", hex(&v)).unwrap();
+            }
+        }
+    }
+    // ---------------- gearsets ----------------
+    {
+        // short files: header only, every content_size
+        let (s, fields) = seed_gearsets(&[0, 1, 5, 99]);
+        writeln!(out, "gearsets {}", hex(&s)).unwrap();
+        for cs in [0u32, 1, 2, 3, 45204, 45205, 45206, 0x7FFF_FFFF, 0x8000_0000, 0xFFFF_FFFF, 0xFFFF_FFFE] {
+            for keep in [17usize, 18, 40, s.len()] {
+                let mut v = s[..keep].to_vec();
+                v[8..12].copy_from_slice(&cs.to_le_bytes());
+                writeln!(out, "gearsets {}", hex(&v)).unwrap();
+            }
+        }
+        let hdr_fields: Fields = fields.iter().cloned().filter(|f| f.0 < 21).collect();
+        field_corruptions(&s, &hdr_fields, emit_for!("gearsets"));
+        truncations(&s[..600], &hdr_fields, 100, 0, &mut rng, emit_for!("gearsets"));
+        let rec_fields: Fields = fields.iter().cloned().filter(|f| f.0 >= 21).collect();
+        let rec_fields: Fields = if thorough { rec_fields } else { rec_fields.into_iter().take(21).collect() };
+        // record fields are stored XORed: corrupt the plain value
+        let mut plain = s.clone();
+        for b in plain[17..].iter_mut() {
+            *b ^= GEARSET_KEY;
+        }
+        field_corruptions(&plain, &rec_fields, &mut |mut v: Vec<u8>| {
+            for b in v[17..].iter_mut() {
+                *b ^= GEARSET_KEY;
+            }
+            writeln!(out, "gearsets {}", hex(&v)).unwrap();
+        });
+        // names: no NUL within 47 bytes (the reader runs on), invalid UTF-8, all-NUL
+        for set in [0usize, 5, 99] {
+            let off = 17 + 4 + 452 * set + 1;
+            string_corruptions(&plain, off, 47, &mut |mut v: Vec<u8>| {
+                for b in v[17..].iter_mut() {
+                    *b ^= GEARSET_KEY;
+                }
+                writeln!(out, "gearsets {}", hex(&v)).unwrap();
+            });
+        }
+        // no NUL anywhere in the payload
+        let mut v = plain.clone();
+        for b in v[21..].iter_mut() {
+            if *b == 0 {
+                *b = b'x';
+            }
+        }
+        for b in v[17..].iter_mut() {
+            *b ^= GEARSET_KEY;
+        }
+        writeln!(out, "gearsets {}", hex(&v)).unwrap();
+        truncations(&s, &rec_fields, 0, if thorough { 300 } else { 20 }, &mut rng, emit_for!("gearsets"));
+        let (s2, _) = seed_gearsets(&[]);
+        writeln!(out, "gearsets {}", hex(&s2)).unwrap();
+    }
+    // ---------------- log ----------------
+    {
+        let msgs: Vec<(u8, u8, &[u8])> = vec![
+            (3, 0, b"Welcome to Eorzea!"),
+            (69, 3, "caf\u{e9} \u{2605}".as_bytes()),
+            (170, 59, &[0xFF, 0x41, 0xC3]),
+            (64, 32, b""),
+        ];
+        for k in [0usize, 1, 4] {
+            let (s, fields) = seed_log(&msgs[..k]);
+            writeln!(out, "log {}", hex(&s)).unwrap();
+            field_corruptions(&s, &fields, emit_for!("log"));
+            truncations(&s, &fields, 4096, 0, &mut rng, emit_for!("log"));
+            // all pairs of small header values
+            if k == 1 {
+                for cs in 0..6u32 {
+                    for fs in 0..6u32 {
+                        let mut v = s.clone();
+                        v[0..4].copy_from_slice(&cs.to_le_bytes());
+                        v[4..8].copy_from_slice(&fs.to_le_bytes());
+                        writeln!(out, "log {}", hex(&v)).unwrap();
+                    }
+                }
+                // every filter / channel byte
+                let eo = 8 + 4 * 4;
+                for b in 0..=255u8 {
+                    let mut v = s.clone();
+                    v[eo + 4] = b;
+                    writeln!(out, "log {}", hex(&v)).unwrap();
+                    let mut v = s.clone();
+                    v[eo + 5] = b;
+                    writeln!(out, "log {}", hex(&v)).unwrap();
+                }
+            }
+            if k == 4 {
+                // offsets: decreasing, equal, beyond the end, huge
+                for (i, val) in [(0usize, 50u32), (1, 0), (1, 5), (2, 1000), (3, 0xFFFF_FFF0), (2, 29), (1, 27), (1, 29)] {
+                    let mut v = s.clone();
+                    v[8 + 4 * i..12 + 4 * i].copy_from_slice(&val.to_le_bytes());
+                    writeln!(out, "log {}", hex(&v)).unwrap();
+                }
+            }
+        }
+        small_strings(&[0, 1, 2, 8, 0xFF], if thorough { 5 } else { 4 }, emit_for!("log"));
+        // 8-byte headers over a grid, followed by nothing / a few bytes
+        for cs in [0u32, 1, 8, 9, 0x3FFF_FFFF, 0x4000_0000, 0xFFFF_FFFF] {
+            for fs in [0u32, 1, 2, 8, 9, 12, 0x3FFF_FFFF, 0x4000_0000, 0x4000_0001, 0xFFFF_FFFF] {
+                for tail in [0usize, 4, 16, 40] {
+                    let mut v = cs.to_le_bytes().to_vec();
+                    v.extend_from_slice(&fs.to_le_bytes());
+                    v.extend(std::iter::repeat(0u8).take(tail));
+                    writeln!(out, "log {}", hex(&v)).unwrap();
+                }
+            }
+        }
+    }
+    // ---------------- patch lists ----------------
+    for game in [false, true] {
+        let op = if game { "pl_game" } else { "pl_boot" };
+        for rows in [0usize, 1, 3] {
+            let s = seed_patchlist(game, rows);
+            writeln!(out, "{} {}", op, hex(&s)).unwrap();
+            // both parsers on both kinds of list
+            writeln!(out, "{} {}", if game { "pl_boot" } else { "pl_game" }, hex(&s)).unwrap();
+            if rows == 0 || rows == 3 && !thorough {
+                truncations(&s, &vec![], 0, 60, &mut rng, emit_for!(op));
+                continue;
+            }
+            truncations(&s, &vec![], 4096, 0, &mut rng, emit_for!(op));
+            let sp: [&[u8]; 9] = [b"\t", b"\r\n", b"\r", b"\n", b",", b"-", b"x", b"99999999999999999999", "\u{e9}".as_bytes()];
+            text_mutations(&s, &sp, if thorough { 1 } else { 5 }, emit_for!(op));
+        }
+        // numeric columns
+        let s = String::from_utf8(seed_patchlist(game, 1)).unwrap();
+        let row_start = s.find("\r\n\r\n").unwrap() + 4;
+        let row_end = row_start + s[row_start..].find("\r\n").unwrap();
+        let cols: Vec<&str> = s[row_start..row_end].split('\t').collect();
+        for c in 0..cols.len() {
+            for val in ["", "-", "+", "abc", "9223372036854775807", "9223372036854775808", "-9223372036854775808", "-9223372036854775809", "1e3", " 1", "+5", "-0", "0"] {
+                let mut cs: Vec<String> = cols.iter().map(|x| x.to_string()).collect();
+                cs[c] = val.to_string();
+                let t = format!("{}{}{}", &s[..row_start], cs.join("\t"), &s[row_end..]);
+                writeln!(out, "{} {}", op, hex(t.as_bytes())).unwrap();
+                // two such rows: the written total overflows
+                let t2 = format!("{}{}\r\n{}{}", &s[..row_start], cs.join("\t"), cs.join("\t"), &s[row_end..]);
+                writeln!(out, "{} {}", op, hex(t2.as_bytes())).unwrap();
+            }
+            // drop columns from c on
+            let t = format!("{}{}{}", &s[..row_start], cols[..c].join("\t"), &s[row_end..]);
+            writeln!(out, "{} {}", op, hex(t.as_bytes())).unwrap();
+        }
+        // number of `\r\n`-separated parts 1..9 with a well-formed row at every position
+        let row = &s[row_start..row_end];
+        for parts in 1..10usize {
+            for at in 0..parts {
+                let v: Vec<&str> = (0..parts).map(|i| if i == at { row } else { "x" }).collect();
+                writeln!(out, "{} {}", op, hex(v.join("\r\n").as_bytes())).unwrap();
+            }
+        }
+        small_strings(&[b'\r', b'\n', b'\t', b'1', b','], if thorough { 6 } else { 5 }, emit_for!(op));
+        writeln!(out, "{} {}", op, hex(&[0xFF, 0xFE])).unwrap();
+    }
+    // to_string on constructed lists
+    {
+        let big = i64::MAX;
+        let small = i64::MIN;
+        let lens = [0i64, 1, -1, big, small, big - 1, 1 << 62];
+        for game in ["boot", "game"] {
+            writeln!(out, "pl_write {} -", game).unwrap();
+            for nh in 0..3usize {
+                for a in lens {
+                    writeln!(out, "pl_write {} {},5,6,{}", game, a, nh).unwrap();
+                    for b in lens {
+                        writeln!(out, "pl_write {} {},5,6,{};{},{},{},{}", game, a, nh, b, a, b, (nh + 1) % 3).unwrap();
+                    }
+                }
+            }
+            let n = if thorough { 2000 } else { 100 };
+            for _ in 0..n {
+                let k = rng.range(1, 5);
+                let es: Vec<String> = (0..k)
+                    .map(|_| {
+                        let v = |r: &mut Rng| match r.below(4) {
+                            0 => *r.pick(&lens),
+                            1 => r.next() as i64,
+                            _ => r.below(1 << 40) as i64,
+                        };
+                        format!("{},{},{},{}", v(&mut rng), v(&mut rng), v(&mut rng), rng.below(4))
+                    })
+                    .collect();
+                writeln!(out, "pl_write {} {}", game, es.join(";")).unwrap();
+            }
+        }
+    }
+    // ---------------- random blobs ----------------
+    {
+        let ops = ["cfg", "exl", "fiin", "chardat", "gearsets", "log"];
+        let sizes: &[usize] = if thorough { &[7, 100, 4096, 65536, 1 << 20] } else { &[7, 100, 4096, 1 << 20] };
+        for (i, op) in ops.iter().enumerate() {
+            for &n in sizes {
+                if n == 1 << 20 && !thorough && i % 3 != 0 {
+                    continue;
+                }
+                let reps = if n <= 4096 { if thorough { 200 } else { 10 } } else { 1 };
+                for _ in 0..reps {
+                    let mut b = rng.bytes(n);
+                    // half of the blobs get the right magic so that the header stage is passed
+                    if rng.chance(1, 2) {
+                        let magic: &[u8] = match *op {
+                            "fiin" => b"FileInfo",
+                            "chardat" => &[0x14, 0xFF, 0x13, 0x20],
+                            "gearsets" => &[0x05, 0x00, 0x6D, 0x00],
+                            _ => &[],
+                        };
+                        for (k, m) in magic.iter().enumerate() {
+                            if k < b.len() {
+                                b[k] = *m;
+                            }
+                        }
+                    }
+                    writeln!(out, "{} {}", op, hex(&b)).unwrap();
+                }
+            }
+        }
+        // ASCII-ish random text for the line-based readers
+        for op in ["cfg", "exl", "pl_boot", "pl_game"] {
+            let n = if thorough { 3000 } else { 150 };
+            for _ in 0..n {
+                let len = rng.range(0, 200) as usize;
+                let alpha: &[u8] = b"<>\t\r\n,#-+0123456789abcXYZ \0";
+                let v: Vec<u8> = (0..len).map(|_| *rng.pick(alpha)).collect();
+                writeln!(out, "{} {}", op, hex(&v)).unwrap();
+            }
+        }
+    }
+    crate::c17_io::generate(thorough, &mut rng, out);
+}
+
+// ------------------------------------------------------------------------------------------
+// T2: enum tables of the `repr = u8` enums, from the compiled code
+// ------------------------------------------------------------------------------------------
+pub fn dump(out: &mut dyn Write) {
+    let args: Vec<String> = std::env::args().collect();
+    if args.get(3).map(|s| s.as_str()) != Some("enums") {
+        return;
+    }
+    install_panic_hook();
+    let (cd, _) = seed_chardat();
+    let mut tab = |off: usize, which: usize| -> Vec<u8> {
+        let mut ok = vec![];
+        for b in 0..=255u8 {
+            let mut v = cd.clone();
+            v[off] = b;
+            if let Some(c) = physis::chardat::CharacterData::from_existing(&v) {
+                let got = match which {
+                    0 => c.customize.race.clone() as u8,
+                    1 => c.customize.gender.clone() as u8,
+                    _ => c.customize.tribe.clone() as u8,
+                };
+                assert_eq!(got, b);
+                ok.push(b);
+            }
+        }
+        ok
+    };
+    let race = tab(16, 0);
+    let gender = tab(17, 1);
+    let tribe = tab(20, 2);
+    let (lg, _) = seed_log(&[(3, 0, b"x")]);
+    let eo = 8 + 4 * 4;
+    let mut filter = vec![];
+    let mut channel = vec![];
+    for b in 0..=255u8 {
+        let mut v = lg.clone();
+        v[eo + 4] = b;
+        let r = std::panic::catch_unwind(|| physis::log::ChatLog::from_existing(&v));
+        if let Ok(Some(l)) = r {
+            if let Some(e) = l.entries.into_iter().next() {
+                filter.push((b, e.filter as u32));
+            }
+        }
+        let mut v = lg.clone();
+        v[eo + 5] = b;
+        let r = std::panic::catch_unwind(|| physis::log::ChatLog::from_existing(&v));
+        if let Ok(Some(l)) = r {
+            if let Some(e) = l.entries.into_iter().next() {
+                channel.push((b, e.channel as u32));
+            }
+        }
+    }
+    let list = |v: &[u8]| v.iter().map(|x| x.to_string()).collect::<Vec<_>>().join(", ");
+    let pairs = |v: &[(u8, u32)]| v.iter().map(|(a, b)| format!("({}, {})", a, b)).collect::<Vec<_>>().join(", ");
+    writeln!(out, "/-! GENERATED by `harness C17 dump enums` from the compiled Physis code (T2). Do not edit. -/").unwrap();
+    writeln!(out, "namespace Physis.Generated.C17Enums").unwrap();
+    writeln!(out, "def raceValid : List Nat := [{}]", list(&race)).unwrap();
+    writeln!(out, "def genderValid : List Nat := [{}]", list(&gender)).unwrap();
+    writeln!(out, "def tribeValid : List Nat := [{}]", list(&tribe)).unwrap();
+    writeln!(out, "/-- byte ↦ discriminant of `EventFilter` -/").unwrap();
+    writeln!(out, "def filterTable : List (Nat × Nat) := [{}]", pairs(&filter)).unwrap();
+    writeln!(out, "/-- byte ↦ discriminant of `EventChannel` -/").unwrap();
+    writeln!(out, "def channelTable : List (Nat × Nat) := [{}]", pairs(&channel)).unwrap();
+    writeln!(out, "end Physis.Generated.C17Enums").unwrap();
+}
